@@ -30,9 +30,14 @@ X86Init(P, args, nblocks) ==
       out |-> <<>>, status |-> "run", tag |-> "", why |-> "", result |-> UndefV, steps |-> 0, hi |-> 0, strict |-> TRUE]
 
 \* ---------- memory: resolve a memory operand to <<"heap", key>> / <<"stk", off>> / <<"bad", tag, why>>
-X86Addr(s, m) ==
-  LET base == s.regs[m.base]
-  IN IF base.t = "ptr" THEN
+\* displacement of a memory operand including an index register (an index must hold a small integer)
+X86IndexOK(s, m) == m.index = "" \/ (s.regs[m.index].t = "int" /\ (SmallNat(s.regs[m.index].w) \/ SmallNeg(s.regs[m.index].w)))
+X86Disp(s, m) == m.off + (IF m.index = "" THEN 0 ELSE SmallVal(s.regs[m.index].w) * m.scale)
+X86Addr(s, m0) ==
+  LET base == s.regs[m0.base]
+      m == [base |-> m0.base, off |-> IF X86IndexOK(s, m0) THEN X86Disp(s, m0) ELSE 0]
+  IN IF ~X86IndexOK(s, m0) THEN <<"bad", IF IsJunk(s.regs[m0.index]) THEN "undef" ELSE "mem", "memory access with an index register that holds no small integer">>
+     ELSE IF base.t = "ptr" THEN
         LET o == base.o + m.off
         IN IF o < 0 \/ o >= BlockBytes \/ (o % 8) # 0 \/ base.b < 0 THEN <<"bad", "mem", "heap access outside the addressed block">>
            ELSE IF base.b >= s.nblocks THEN <<"exhausted">>
@@ -47,6 +52,9 @@ X86Addr(s, m) ==
 
 X86Read(s, a) ==
   IF a.k = "reg" THEN s.regs[a.r]
+  ELSE IF a.k = "reg32" THEN (IF s.regs[a.r].t = "int" THEN IntV(Low32(s.regs[a.r].w))
+                              ELSE IF IsJunk(s.regs[a.r]) THEN s.regs[a.r]
+                              ELSE [t |-> "bad", tag |-> "value", why |-> "32-bit read of a register that holds no integer"])
   ELSE IF a.k = "imm" THEN IntV(a.w)
   ELSE IF a.k = "rel" THEN CodeV(a.l, 0)
   ELSE IF a.k = "mem" THEN
@@ -59,7 +67,9 @@ X86Read(s, a) ==
 
 \* v must not be bad
 X86Write(s, a, v) ==
-  IF a.k = "reg" THEN (IF a.r = "rsp" /\ v.t # "stk" THEN Fail(s, "mem", "stack pointer set to a non-stack value") ELSE [s EXCEPT !.regs[a.r] = v])
+  IF a.k = "reg32" THEN (IF v.t = "int" /\ a.r # "rsp" THEN [s EXCEPT !.regs[a.r] = IntV(Low32(v.w))]      \* zero-extension
+                         ELSE Fail(s, "value", "32-bit write of a non-integer"))
+  ELSE IF a.k = "reg" THEN (IF a.r = "rsp" /\ v.t # "stk" THEN Fail(s, "mem", "stack pointer set to a non-stack value") ELSE [s EXCEPT !.regs[a.r] = v])
   ELSE IF a.k = "mem" THEN
        LET ad == X86Addr(s, a)
        IN IF ad[1] = "heap"
@@ -90,6 +100,13 @@ X86Unencodable(i) ==
   ELSE IF i.op = "idiv" THEN (IF i.a[1].k = "imm" THEN "idiv imm" ELSE "")
   ELSE IF i.op \in {"push", "pop"} THEN (IF i.a[1].k # "reg" THEN i.op \o " of non-register" ELSE "")
   ELSE IF i.op = "lea" THEN (IF i.a[1].k # "reg" \/ i.a[2].k \notin {"rel", "mem"} THEN "lea form" ELSE "")
+  ELSE IF i.op \in {"test", "and", "or", "xor"} THEN
+       (IF i.a[2].k = "imm" /\ ~i.a[2].fits32 THEN i.op \o " with imm64" ELSE
+        IF i.a[1].k = "mem" /\ i.a[2].k = "mem" THEN i.op \o " m64, m64" ELSE
+        IF i.a[1].k = "imm" THEN i.op \o " with immediate destination" ELSE "")
+  ELSE IF i.op \in {"shl", "sal", "sar", "shr"} THEN
+       (IF i.a[2].k # "imm" \/ ~SmallNat(i.a[2].w) \/ i.a[2].w[1] > 63 THEN i.op \o " with a count that is no immediate in 0..63" ELSE "")
+  ELSE IF i.op \in {"inc", "dec", "neg", "not"} THEN (IF i.a[1].k = "imm" THEN i.op \o " of an immediate" ELSE "")
   ELSE ""
 
 X86JumpBytes == 5
@@ -134,16 +151,55 @@ X86Step(P, s) ==
   IN
   IF op \in {"label", "mark"} THEN Next1(s)
   ELSE IF s.strict /\ X86Unencodable(i) # "" THEN Fail(s, "encode", "unencodable instruction: " \o X86Unencodable(i))
+  ELSE IF op = "lea" /\ i.a[2].k = "mem" THEN        \* address arithmetic, no memory access, flags untouched
+     LET b == s.regs[i.a[2].base]
+         v == IF X86IndexOK(s, i.a[2]) THEN AddV(b, IntV(FromInt(X86Disp(s, i.a[2])))) ELSE BadV("lea with an index register that holds no small integer")
+     IN IF IsJunk(b) THEN Fail(s, "undef", "lea from an undefined register") ELSE IF IsBad(v) THEN BadToFail(s, v) ELSE Next1(X86Write(s, i.a[1], v))
   ELSE IF op \in {"mov", "lea"} THEN
      LET v == X86Read(s, i.a[2])
      IN IF IsBadOrEx(v) THEN BadToFail(s, v) ELSE Next1(X86Write(s, i.a[1], v))
+  ELSE IF op = "nop" THEN Next1(s)
   ELSE IF op \in {"add", "sub", "imul"} THEN
      LET x == X86Read(s, i.a[1]) y == X86Read(s, i.a[2])
          r == IF op = "add" THEN AddV(x, y) ELSE IF op = "sub" THEN SubV(x, y) ELSE MulV(x, y)
+         ints == x.t = "int" /\ y.t = "int" /\ i.a[1].k # "reg32"
+         \* flags: `sub` sets them like `cmp`; `add` like a comparison of the sum with zero unless the signed sum overflows
+         fl == IF ints /\ op = "sub" THEN <<x, y>>
+               ELSE IF ints /\ op = "add" /\ ~(IsNeg(x.w) = IsNeg(y.w) /\ IsNeg(r.w) # IsNeg(x.w)) THEN <<r, ZeroV>>
+               ELSE NoFlagsV
      IN IF IsBadOrEx(x) THEN BadToFail(s, x) ELSE IF IsBadOrEx(y) THEN BadToFail(s, y)
         ELSE IF IsJunk(x) \/ IsJunk(y) THEN Fail(s, "undef", op \o " on an undefined value")
         ELSE IF IsBad(r) THEN BadToFail(s, r)
-        ELSE Next1(ClearFlags(X86Write(s, i.a[1], r)))
+        ELSE Next1([X86Write(s, i.a[1], r) EXCEPT !.flags = fl])
+  ELSE IF op \in {"xor", "and", "or", "test"} THEN
+     LET x == X86Read(s, i.a[1]) y == X86Read(s, i.a[2]) same == i.a[1] = i.a[2] /\ i.a[1].k \in {"reg", "reg32"}
+     IN IF op = "xor" /\ same THEN Next1([X86Write(s, i.a[1], ZeroV) EXCEPT !.flags = <<ZeroV, ZeroV>>])     \* zeroing idiom: any content
+        ELSE IF IsBadOrEx(x) THEN BadToFail(s, x) ELSE IF IsBadOrEx(y) THEN BadToFail(s, y)
+        ELSE IF IsJunk(x) \/ IsJunk(y) THEN Fail(s, "undef", op \o " on an undefined value")
+        ELSE IF op = "test" /\ same THEN Next1([s EXCEPT !.flags = <<x, ZeroV>>])                               \* also for a pointer: null test
+        ELSE IF op \in {"and", "or"} /\ same THEN Next1([s EXCEPT !.flags = <<x, ZeroV>>])
+        ELSE IF x.t # "int" \/ y.t # "int" THEN Fail(s, "value", op \o " on non-integers")
+        ELSE LET r == IntV(IF op = "xor" THEN BitXor(x.w, y.w) ELSE IF op = "or" THEN BitOr(x.w, y.w) ELSE BitAnd(x.w, y.w))
+             IN IF op = "test" THEN Next1([s EXCEPT !.flags = <<r, ZeroV>>])
+                ELSE Next1([X86Write(s, i.a[1], r) EXCEPT !.flags = IF i.a[1].k = "reg32" THEN NoFlagsV ELSE <<r, ZeroV>>])
+  ELSE IF op \in {"inc", "dec", "neg", "not"} THEN
+     LET x == X86Read(s, i.a[1])
+         r == IF op = "inc" THEN AddV(x, IntV(One)) ELSE IF op = "dec" THEN SubV(x, IntV(One))
+              ELSE IF x.t # "int" THEN BadV(op \o " of a non-integer") ELSE IF op = "neg" THEN IntV(Neg(x.w)) ELSE IntV(Not(x.w))
+         fl == IF op = "not" THEN s.flags
+               ELSE IF x.t # "int" \/ i.a[1].k = "reg32" THEN NoFlagsV
+               ELSE IF op = "neg" THEN <<ZeroV, x>>
+               ELSE IF (op = "inc" /\ x.w = MaxW) \/ (op = "dec" /\ x.w = MinW) THEN NoFlagsV ELSE <<r, ZeroV>>
+     IN IF IsBadOrEx(x) THEN BadToFail(s, x)
+        ELSE IF IsJunk(x) THEN Fail(s, "undef", op \o " on an undefined value")
+        ELSE IF IsBad(r) THEN BadToFail(s, r)
+        ELSE Next1([X86Write(s, i.a[1], r) EXCEPT !.flags = fl])
+  ELSE IF op \in {"shl", "sal", "sar", "shr"} THEN
+     LET x == X86Read(s, i.a[1]) k == i.a[2].w[1]
+     IN IF IsBadOrEx(x) THEN BadToFail(s, x)
+        ELSE IF IsJunk(x) THEN Fail(s, "undef", op \o " on an undefined value")
+        ELSE IF x.t # "int" \/ i.a[2].k # "imm" \/ i.a[1].k = "reg32" THEN Fail(s, "value", op \o " on a non-integer, by a non-immediate count or on a 32-bit register")
+        ELSE Next1(ClearFlags(X86Write(s, i.a[1], IntV(IF op \in {"shl", "sal"} THEN Shl(x.w, k) ELSE IF op = "sar" THEN Sar(x.w, k) ELSE Shr(x.w, k)))))
   ELSE IF op = "cqo" THEN
      IF IsJunk(s.regs["rax"]) THEN Fail(s, "undef", "cqo on an undefined value")
      ELSE IF s.regs["rax"].t # "int" THEN Fail(s, "value", "cqo on non-integer")
@@ -161,8 +217,10 @@ X86Step(P, s) ==
      LET x == X86Read(s, i.a[1]) y == X86Read(s, i.a[2])
      IN IF IsBadOrEx(x) THEN BadToFail(s, x) ELSE IF IsBadOrEx(y) THEN BadToFail(s, y)
         ELSE Next1([s EXCEPT !.flags = <<x, y>>])
-  ELSE IF op \in {"je", "jne", "jl", "jle", "jg", "jge"} THEN
-     LET cc == CASE op = "je" -> "eq" [] op = "jne" -> "ne" [] op = "jl" -> "lt" [] op = "jle" -> "le" [] op = "jg" -> "gt" [] OTHER -> "ge"
+  ELSE IF op \in {"js", "jns"} /\ s.flags[2] # ZeroV THEN
+     Fail(s, "tool", "sign-flag jump after a comparison with a non-zero operand is not modelled")
+  ELSE IF op \in {"je", "jne", "jl", "jle", "jg", "jge", "jz", "jnz", "js", "jns"} THEN
+     LET cc == CASE op \in {"je", "jz"} -> "eq" [] op \in {"jne", "jnz"} -> "ne" [] op \in {"jl", "js"} -> "lt" [] op = "jle" -> "le" [] op = "jg" -> "gt" [] OTHER -> "ge"
          c == Cond(cc, s.flags)
      IN IF c = "bad" THEN
              (IF IsJunk(s.flags[1]) \/ IsJunk(s.flags[2]) THEN Fail(s, "undef", "conditional jump depends on undefined flags or an undefined operand")
